@@ -2,6 +2,7 @@
 """Systematic source-level mutation of the analysed functions (blind-spot discovery for the rules).
 
 mutate.py enumerate <facts.json> <out.json>      list mutation sites from THIR spans
+mutate.py enumerate-swaps <facts.json> <out.json>   statement-order mutants (adjacent statements that share a name, exchanged)
 mutate.py run <sites.json> <results.json> [--jobs N] [--only substr]   apply each, extract facts, run all 18 specs
 
 A mutant is one textual replacement at a THIR-derived span: arithmetic / relational operator flips, compound-assignment
@@ -180,6 +181,73 @@ def enumerate_sites(facts_path, repo='/repo', fn_filter=None):
     return sites
 
 
+KEYWORDS = set('let mut if else for in while loop match return break continue as ref move fn pub use where impl self Self true false Some None Ok Err unwrap expect clone into iter collect map'.split())
+
+
+def enumerate_swaps(facts_path, repo='/repo'):
+    """statement-order mutants: two adjacent statements of one block exchanged (only pairs that mention a common name:
+    independent statements commute and would all be equivalent mutants)"""
+    F = Facts(facts_path)
+    src = Src(repo)
+    sites, seen = [], set()
+
+    def stmt_span(st):
+        if st.get('k') == 'Let':
+            if not st.get('sp'):
+                return None
+            f, a, b = src.span(st['sp'])
+        else:
+            e = st.get('e') or {}
+            if e.get('exp') or not e.get('sp'):
+                return None
+            f, a, b = src.span(e['sp'])
+            t, _ = src.text(f)
+            if t[b:b + 1] == ';':
+                b += 1
+        return f, a, b
+
+    def names(txt):
+        txt = re.sub(r'//[^\n]*', '', txt)
+        toks = set(re.findall(r'self\.[a-z_][a-z0-9_]*|\b[a-z_][a-z0-9_]*\b', txt))
+        return {x for x in toks if x not in KEYWORDS and len(x) > 1}
+
+    for b in F.bodies:
+        if not F.is_hand_written(b) or b['def_kind'] not in ('Fn', 'AssocFn', 'Closure'):
+            continue
+        root = F.closure_root(b) or b
+        fn = strip_generics(root['path'])
+        if 'tests::' in fn or fn.startswith('dev_tools'):
+            continue
+
+        def g(n, fn=fn):
+            if n.get('k') != 'Block':
+                return
+            sts = n.get('stmts', [])
+            for i in range(len(sts) - 1):
+                try:
+                    s1, s2 = stmt_span(sts[i]), stmt_span(sts[i + 1])
+                    if not s1 or not s2 or s1[0] != s2[0] or s1[2] > s2[1]:
+                        continue
+                    f, a0, a1 = s1
+                    _, b0, b1 = s2
+                    t, _ = src.text(f)
+                    x, mid, y = t[a0:a1], t[a1:b0], t[b0:b1]
+                    if mid.strip() and not all(l.strip().startswith('//') or not l.strip() for l in mid.split('\n')):
+                        continue
+                    if not (names(x) & names(y)):
+                        continue
+                    key = (f, a0, b1)
+                    if key in seen:
+                        continue
+                    seen.add(key)
+                    line = t.count('\n', 0, a0) + 1
+                    sites.append({'file': f, 'start': a0, 'end': b1, 'old': t[a0:b1], 'new': y + mid + x, 'desc': 'swap statements `%s` <-> `%s`' % (x.split('\n')[0][:40], y.split('\n')[0][:40]), 'fn': fn, 'line': line})
+                except Exception:
+                    pass
+        walk(b.get('thir'), g)
+    return sites
+
+
 def run_one(args):
     site, idx, tdir = args
     S = tempfile.mkdtemp(prefix='mcmc-mutate-')
@@ -211,6 +279,41 @@ def main():
     cmd = sys.argv[1]
     if cmd == 'enumerate':
         sites = enumerate_sites(sys.argv[2])
+        json.dump(sites, open(sys.argv[3], 'w'), indent=1)
+        from collections import Counter
+        print(len(sites), 'sites;', Counter(s['file'] for s in sites))
+    elif cmd == 'enumerate-assign-deletes':
+        # statement-deletion mutants for plain assignments `place = e;` / `place op= e;` (the first sweep deleted call statements only)
+        F = Facts(sys.argv[2])
+        src = Src('/repo')
+        sites, seen = [], set()
+        for b in F.bodies:
+            if not F.is_hand_written(b) or b['def_kind'] not in ('Fn', 'AssocFn', 'Closure'):
+                continue
+            root = F.closure_root(b) or b
+            fn = strip_generics(root['path'])
+            if 'tests::' in fn or fn.startswith('dev_tools'):
+                continue
+
+            def g(n, fn=fn):
+                if n.get('k') != 'Block':
+                    return
+                for st in n.get('stmts', []):
+                    e = st.get('e') or {}
+                    if st.get('k') == 'Expr' and e.get('k') in ('Assign', 'AssignOp') and not e.get('exp') and e.get('sp'):
+                        try:
+                            f, a0, a1 = src.span(e['sp'])
+                            t, _ = src.text(f)
+                            if t[a1:a1 + 1] == ';' and (f, a0) not in seen:
+                                seen.add((f, a0))
+                                sites.append({'file': f, 'start': a0, 'end': a1 + 1, 'old': t[a0:a1 + 1], 'new': '', 'desc': 'delete assignment `%s`' % t[a0:a1].split('\n')[0][:60], 'fn': fn, 'line': t.count('\n', 0, a0) + 1})
+                        except Exception:
+                            pass
+            walk(b.get('thir'), g)
+        json.dump(sites, open(sys.argv[3], 'w'), indent=1)
+        print(len(sites), 'sites')
+    elif cmd == 'enumerate-swaps':
+        sites = enumerate_swaps(sys.argv[2])
         json.dump(sites, open(sys.argv[3], 'w'), indent=1)
         from collections import Counter
         print(len(sites), 'sites;', Counter(s['file'] for s in sites))
